@@ -185,6 +185,7 @@ class World:
         self.dropped = []  # keeps dropped objects alive so id() is never reused within a run
         self.label_uuid = {}  # label -> uuid int, for every label ever registered
         self.last_loaded = None
+        self.deferred = None  # a pending Diverged (see ops.execute)
         self.queue = []  # operations scheduled by the generator (e.g. heal before save)
 
     # --- labels --------------------------------------------------------
